@@ -72,7 +72,11 @@ Ideal(o) ==
                                [exc |-> r2, st |-> IF r2 = Ok THEN IdealSC(s1.par, s1.ch, o.n, o.xs) ELSE s1]
 
 \* no hook raised during the call (a recorded log may be truncated for runs that end in RecursionError, so the outcome counts, too)
-FaultFree(o) == (\A i \in 1..Len(o.log): ~o.log[i].r) /\ o.exc \notin {"HookFault", "RecursionError"}
+\* (... unless the observation is known to have been made with no fault injected at all -- field `sure`, set by the harness
+\* for its own replays and histories: then any outcome, RecursionError included, is the outcome of a fault-free call)
+FaultFree(o) == /\ \A i \in 1..Len(o.log): ~o.log[i].r
+                /\ \/ o.exc \notin {"HookFault", "RecursionError"}
+                   \/ ("sure" \in DOMAIN o /\ o.sure /\ o.plan.mode = "none")
 
 C02_OK(o) ==
   (FaultFree(o) /\ Ideal(o).exc # "Outside") =>
@@ -84,7 +88,12 @@ C02_OK(o) ==
 (***************************************************************************)
 (* C03: refused or pre-hook-vetoed calls leave the whole forest untouched. *)
 (***************************************************************************)
-Refused(o) == o.exc \in {"TreeError", "LoopError", "TypeError"}
+\* "raises because the request is invalid": one of the library's refusals -- or any other exception from a call that had to
+\* be refused while no hook raised (which exception class a refusal uses is C02's business; what it leaves behind is C03's)
+Refused(o) == \/ o.exc \in {"TreeError", "LoopError", "TypeError"}
+              \/ /\ o.exc \notin {Ok, "HookFault", "RecursionError"}
+                 /\ \A i \in 1..Len(o.log): ~o.log[i].r
+                 /\ o.k \in {"sp", "dc", "sc"} /\ Ideal(o).exc \notin {Ok, "Outside"}
 \* "raises because a pre-hook raised": weakest reading -- every exception raised inside the call
 \* came from a pre-hook (a persistent veto can surface as RecursionError, see deviation E)
 Vetoed(o)  == /\ o.exc \in {"HookFault", "RecursionError"}
